@@ -83,6 +83,13 @@ func vhDates() {
 			years = append(years, y)
 		}
 	}
+	if step := vParam("YEARSTEP", 0); step > 0 {
+		// the special years plus every step-th year of 1950..2200 (rotating through
+		// the four positions in the leap cycle)
+		for y := 1950; y <= 2200; y += step {
+			years = append(years, y+(y/step)%4)
+		}
+	}
 	off := vZone()
 	which := vChoose("field", 2)
 	s, y, m, d, _, _ := vDate("date", years)
